@@ -291,3 +291,97 @@ Proof.
     split; [intros k Hk; simpl; rewrite slk_aset_other by exact Hk; auto|].
     split; [exact Ep|]. split; [apply slk_aset_same|]. split; [exact Ep|]. split; [intro; reflexivity | reflexivity].
 Qed.
+
+(* ---- a subscribe / unsubscribe request from a peer ---- *)
+Lemma smem_sadd_S x y l : smem str_eqb x (sadd str_eqb y l) = str_eqb x y || smem str_eqb x l.
+Proof.
+  destruct (smem str_eqb x (sadd str_eqb y l)) eqn:E.
+  - apply smem_S_In, (In_sadd str_eqb str_eqb_spec) in E as [->|E]; [rewrite str_eqb_refl; reflexivity|].
+    apply smem_S_In in E. rewrite E, orb_true_r. reflexivity.
+  - symmetry. apply orb_false_iff. split.
+    + destruct (str_eqb x y) eqn:E2; [|reflexivity]. apply str_eqb_spec in E2. subst.
+      apply (smem_false str_eqb str_eqb_spec) in E. exfalso. apply E. apply (In_sadd str_eqb str_eqb_spec). auto.
+    + destruct (smem str_eqb x l) eqn:E2; [|reflexivity]. apply smem_S_In in E2.
+      apply (smem_false str_eqb str_eqb_spec) in E. exfalso. apply E. apply (In_sadd str_eqb str_eqb_spec). auto.
+Qed.
+
+Lemma smem_sdel_same_S x l : smem str_eqb x (sdel str_eqb x l) = false.
+Proof. apply (smem_false str_eqb str_eqb_spec). intro H. apply (In_sdel str_eqb str_eqb_spec) in H as [H _]. congruence. Qed.
+
+Lemma sub_request_spec n from id p0 s0 sub :
+  let r := handle_sub_request n from id p0 s0 sub in
+  n_lsubs (fst r) = n_lsubs n /\ n_pname (fst r) = n_pname n /\ n_pid (fst r) = n_pid n /\
+  n_peers (fst r) = n_peers n /\ n_name (fst r) = n_name n /\ n_objs (fst r) = n_objs n /\ n_next (fst r) = n_next n /\
+  snd r = send_to n from (MSubReply id (if sub then smem str_eqb p0 (n_objs n) else true)) /\
+  Rk (fst r) from p0 s0 = (if sub then smem str_eqb p0 (n_objs n) || Rk n from p0 s0 else false) /\
+  (forall x p s, key2 p s <> key2 p0 s0 -> Rk (fst r) x p s = Rk n x p s).
+Proof.
+  unfold handle_sub_request, Rk. destruct sub.
+  - destruct (smem str_eqb p0 (n_objs n)) eqn:Eo.
+    + unfold add_remote. destruct (slk (key2 p0 s0) (n_rsubs n)) as [l|] eqn:El; simpl;
+        do 8 (split; [reflexivity|]); split.
+      * rewrite slk_aset_same. simpl. rewrite smem_sadd_S, str_eqb_refl. reflexivity.
+      * intros x p s Hk. rewrite slk_aset_other by exact Hk. reflexivity.
+      * rewrite slk_aset_same. simpl. rewrite str_eqb_refl. reflexivity.
+      * intros x p s Hk. rewrite slk_aset_other by exact Hk. reflexivity.
+    + simpl. do 8 (split; [reflexivity|]). split; [reflexivity | intros; reflexivity].
+  - unfold remove_remote. destruct (slk (key2 p0 s0) (n_rsubs n)) as [l|] eqn:El.
+    + destruct (is_nil (sdel str_eqb from l)) eqn:En; simpl; do 8 (split; [reflexivity|]); split.
+      * rewrite slk_aremove_same. reflexivity.
+      * intros x p s Hk. rewrite slk_aremove_other by exact Hk. reflexivity.
+      * rewrite slk_aset_same. simpl. apply smem_sdel_same_S.
+      * intros x p s Hk. rewrite slk_aset_other by exact Hk. reflexivity.
+    + simpl. do 8 (split; [reflexivity|]). split; [rewrite El; reflexivity | intros; reflexivity].
+Qed.
+
+(* ---- removal of a publisher object ---- *)
+Definition msgs_of (os : list out) : list msg :=
+  flat_map (fun o => match o with OSend _ m => [m] | ORes _ => [] end) os.
+Definition reqids_of (os : list out) : list N :=
+  flat_map (fun o => match o with OSend _ m => match req_id_of m with Some id => [id] | None => [] end | ORes _ => [] end) os.
+
+Lemma msgs_of_app a b : msgs_of (a ++ b) = msgs_of a ++ msgs_of b.
+Proof. unfold msgs_of. apply flat_map_app. Qed.
+
+Lemma object_removed_spec n o :
+  let n0 := w_objs (sdel str_eqb o (n_objs n)) n in
+  let r := object_removed n0 o in
+  n_pname (fst r) = n_pname n /\ n_pid (fst r) = n_pid n /\ n_peers (fst r) = n_peers n /\
+  n_name (fst r) = n_name n /\ n_next (fst r) = n_next n /\
+  (forall m, In m (msgs_of (snd r)) -> exists s', m = MRemoved o s') /\
+  reqids_of (snd r) = [] /\
+  (forall c p s, nodot (n_name n) = true -> nodot o = true -> nodot c = true -> nodot p = true ->
+     c <> n_name n -> Lk (fst r) c p s = Lk n c p s) /\
+  (forall x p s, nodot o = true -> nodot p = true ->
+     Rk (fst r) x p s = (if str_eqb o p then false else Rk n x p s)) /\
+  (forall x s, nodot o = true -> Rk n x o s = true -> can_send n x = true -> In (MRemoved o s) (msgs_of (snd r))).
+Proof.
+  unfold object_removed. simpl. do 5 (split; [reflexivity|]).
+  split; [|split; [|split; [|split]]].
+  - intros m Hm. unfold msgs_of in Hm. apply in_flat_map in Hm as [o1 [Ho1 Hm]].
+    apply in_flat_map in Ho1 as [e [_ Ho1]]. apply in_flat_map in Ho1 as [x [_ Ho1]].
+    unfold send_to in Ho1. destruct (can_send _ x); [|destruct Ho1]. destruct Ho1 as [<-|[]].
+    destruct Hm as [<-|[]]. eauto.
+  - match goal with |- reqids_of ?l = [] => assert (H : forall o1, In o1 l -> exists x s', o1 = OSend x (MRemoved o s')) end.
+    { intros o1 Ho1. apply in_flat_map in Ho1 as [e [_ Ho1]]. apply in_flat_map in Ho1 as [x [_ Ho1]].
+      unfold send_to in Ho1. destruct (can_send _ x); [|destruct Ho1]. destruct Ho1 as [<-|[]]. eauto. }
+    match goal with |- reqids_of ?l = [] => induction l as [|o1 l IH]; [reflexivity|] end.
+    simpl. destruct (H o1 (or_introl eq_refl)) as (x & s' & ->). simpl. apply IH. intros o2 Ho2. apply H. right. exact Ho2.
+  - intros c p s Hm Ho Hc Hp Hne. unfold Lk. simpl.
+    rewrite (alookup_filter_key str_eqb str_eqb_spec (fun k => negb (startswith (n_name n ++ DOT :: o ++ [DOT]) k))).
+    destruct (startswith (n_name n ++ DOT :: o ++ [DOT]) (key3 c p s)) eqn:E; [|reflexivity].
+    apply prefix_obj3 in E as [E _]; try assumption. congruence.
+  - intros x p s Ho Hp. unfold Rk. simpl.
+    rewrite (alookup_filter_key str_eqb str_eqb_spec (fun k => negb (startswith (o ++ [DOT]) k))).
+    destruct (startswith (o ++ [DOT]) (key2 p s)) eqn:E.
+    + apply prefix_obj2 in E; try assumption. subst. rewrite str_eqb_refl. reflexivity.
+    + simpl. destruct (str_eqb o p) eqn:E2; [|reflexivity]. apply str_eqb_spec in E2. subst.
+      assert (startswith (p ++ [DOT]) (key2 p s) = true) by (apply prefix_obj2; auto). congruence.
+  - intros x s Ho HR Hc. unfold Rk in HR. destruct (slk (key2 o s) (n_rsubs n)) as [l|] eqn:El; [|discriminate].
+    simpl in HR. apply smem_S_In in HR. apply (alookup_In str_eqb str_eqb_spec) in El.
+    unfold msgs_of. apply in_flat_map. exists (OSend x (MRemoved o s)). split; [|left; reflexivity].
+    apply in_flat_map. exists (key2 o s, l). split.
+    + apply filter_In. split; [exact El|]. simpl. apply prefix_obj2; auto.
+    + simpl. apply in_flat_map. exists x. split; [exact HR|].
+      unfold send_to. unfold can_send in *. simpl. rewrite Hc. rewrite after_dot_key2 by exact Ho. left. reflexivity.
+Qed.
